@@ -10,6 +10,7 @@ import (
 	"os"
 	"sort"
 	"strings"
+	"time"
 
 	"golang.org/x/tools/go/ssa"
 )
@@ -55,6 +56,7 @@ type Explorer struct {
 	noMergeIf    map[*ssa.If]bool
 	trivialOK    int
 	unknownFeas  int
+	rangeFacts   map[*Term][3]int64
 }
 
 func newExplorer(m *Machine) *Explorer {
@@ -144,6 +146,9 @@ func (m *Machine) decide(c *Term) bool {
 		e.lastDecision = d.val
 		return d.val
 	}
+	if !m.deadline.IsZero() && time.Now().After(m.deadline) {
+		panic(unsupported("unit time budget exceeded"))
+	}
 	tFeas, fFeas := Unknown, Unknown
 	var tModel, fModel Model
 	tKnown, fKnown := false, false
@@ -187,6 +192,31 @@ func (m *Machine) decide(c *Term) bool {
 	e.pushConstraint(d)
 	e.lastDecision = d.val
 	return d.val
+}
+
+// proveRange asks the solver whether lo <= t <= hi holds on every model of
+// the current path condition.  Proven facts are cached for the current path
+// (the cache is dropped whenever the explorer backtracks).
+func (e *Explorer) proveRange(t *Term, lo, hi int64) bool {
+	if e.rangeFacts == nil {
+		e.rangeFacts = map[*Term][3]int64{}
+	}
+	if f, ok := e.rangeFacts[t]; ok && int(f[2]) <= e.pos && f[0] >= lo && f[1] <= hi {
+		return true
+	}
+	tb := e.m.tb
+	in := tb.And(tb.Le(tb.Int(lo), t), tb.Le(t, tb.Int(hi)))
+	if in.IsConst() {
+		return in.k != 0
+	}
+	save, saveOK := e.model, e.modelOK
+	r, _ := e.checkSide(tb.Not(in))
+	e.model, e.modelOK = save, saveOK
+	if r == Unsat {
+		e.rangeFacts[t] = [3]int64{lo, hi, int64(e.pos)}
+		return true
+	}
+	return false
 }
 
 func (e *Explorer) setModel(md Model) {
@@ -366,6 +396,7 @@ func (e *Explorer) runPath(root func()) (out PathOutcome) {
 // backtrack flips the deepest decision (index >= floor) with an unexplored
 // alternative. Returns false when exhausted.
 func (e *Explorer) backtrack(floor int) bool {
+	e.rangeFacts = nil
 	for len(e.dec) > floor {
 		last := &e.dec[len(e.dec)-1]
 		if last.hasAlt {
@@ -393,6 +424,7 @@ func (e *Explorer) Explore(root func(), onPath func(PathOutcome)) {
 	for {
 		m.undoTo(mark)
 		e.pos = 0
+		e.rangeFacts = nil
 		m.varSeq = map[string]int{}
 		out := e.runPath(root)
 		e.Paths++
@@ -409,6 +441,57 @@ func (e *Explorer) Explore(root func(), onPath func(PathOutcome)) {
 		}
 	}
 	m.undoTo(mark)
+}
+
+// each explores every path of f from the current state (assertions inside
+// are decided per path), then rolls the state back and continues on a single
+// path: forks inside f add to, instead of multiplying with, the caller's.
+func (e *Explorer) each(f func()) {
+	m := e.m
+	if e.pos < len(e.dec) {
+		return // replaying a recorded prefix: this block was already explored in this context
+	}
+	mark := len(m.trail)
+	floor := len(e.dec)
+	baseModel, baseModelOK := e.model, e.modelOK
+	var pass any
+	for {
+		m.undoTo(mark)
+		e.pos = floor
+		func() {
+			defer func() {
+				if r := recover(); r != nil {
+					switch r := r.(type) {
+					case targetPanic:
+						e.Obls = append(e.Obls, Obligation{ID: "no-uncaught-panic", Kind: "nopanic", Pos: r.msg + " @" + r.pos, Result: "sat", Model: e.currentModel(), PathLen: e.pos, Msg: r.msg})
+					case pathAbort:
+						e.Aborted++
+					default:
+						pass = r
+					}
+				}
+			}()
+			f()
+		}()
+		e.Paths++
+		if pass != nil {
+			break
+		}
+		if !e.backtrack(floor) {
+			break
+		}
+	}
+	for len(e.dec) > floor {
+		e.dec = e.dec[:len(e.dec)-1]
+	}
+	m.sol.PopTo(e.baseLevel + floor)
+	e.pos = floor
+	e.model, e.modelOK = baseModel, baseModelOK
+	e.rangeFacts = nil
+	m.undoTo(mark)
+	if pass != nil {
+		panic(pass)
+	}
 }
 
 // ---------- region merging ----------
@@ -750,6 +833,7 @@ func (m *Machine) mergeRegion(fr *frame, in *ssa.If, c *Term, join *ssa.BasicBlo
 	}
 	// try the merge (may fail with mergeFail)
 	okMerge := true
+	mergeWhy := ""
 	var mergedEnv map[ssa.Value]value
 	var mergedWrites map[*value]value
 	var mergedResult value
@@ -757,8 +841,9 @@ func (m *Machine) mergeRegion(fr *frame, in *ssa.If, c *Term, join *ssa.BasicBlo
 	func() {
 		defer func() {
 			if r := recover(); r != nil {
-				if _, ok := r.(mergeFail); ok {
+				if mf, ok := r.(mergeFail); ok {
 					okMerge = false
+					mergeWhy = mf.why
 					return
 				}
 				panic(r)
@@ -843,7 +928,11 @@ func (m *Machine) mergeRegion(fr *frame, in *ssa.If, c *Term, join *ssa.BasicBlo
 				}
 				seen[p] = true
 				if sr, ok := m.fresh[p]; ok && sr > entrySerial {
-					continue // allocated inside the region: reachable only through merged pointers
+					// allocated inside the region by this path only: keep its final content
+					// (it may stay reachable when the pointer is the same on every surviving path)
+					worder = append(worder, p)
+					mergedWrites[p] = s.writes[p]
+					continue
 				}
 				worder = append(worder, p)
 				vals := make([]value, n)
@@ -858,6 +947,13 @@ func (m *Machine) mergeRegion(fr *frame, in *ssa.If, c *Term, join *ssa.BasicBlo
 			}
 		}
 	}()
+	if os.Getenv("SYMGO_TRACE") != "" {
+		ks := ""
+		for _, en := range ends {
+			ks += fmt.Sprintf("%d", en.kind)
+		}
+		fmt.Fprintf(os.Stderr, "REGION %s @%s paths=%s ok=%v why=%s floor=%d\n", fr.fn.Name(), posOf(m.prog, in.Pos()), ks, okMerge, mergeWhy, floor)
+	}
 	if !okMerge {
 		return false
 	}
